@@ -207,6 +207,23 @@ def path_cases(c, cases):
                     if (again[0], bool(again[1])) != (short, bool(flag)):
                         bad = 'named %r (app=%s) after a frame of %szz.py in the same stack, %r (app=%s) on its own' % (
                             again[0], again[1], p_, short, flag)
+                # a prefix can name one FILE (a generated module next to hand-written ones): the file is excluded, the files
+                # next to it are judged on their own - also when they follow it in one stack
+                if not bad and rendering != 'pathlib':
+                    sib = file.rsplit('/', 1)[0] + '/generated_one.py'
+                    cfg3 = ConfigService({'IN_APP_INCLUDE': inc, 'IN_APP_EXCLUDE': exc + [sib], 'APP_ROOT': root},
+                                         tracepoints=TracepointConfigService())
+
+                    class Src3:
+                        is_app_frame = staticmethod(cfg3.is_app_frame)
+                    fc3 = FrameCollector(Src3(), None)
+                    first = fc3.parse_short_name(sib)
+                    again = fc3.parse_short_name(file)
+                    if first[1]:
+                        bad = 'the excluded file %s is an application frame' % sib
+                    elif (again[0], bool(again[1])) != (short, bool(flag)):
+                        bad = 'named %r (app=%s) after the excluded file %s of the same directory, %r (app=%s) on its own' % (
+                            again[0], again[1], sib, short, flag)
         except BaseException as ex:
             bad = 'is_app_frame raised %r' % (ex,)
         c.traces_validated += 1
